@@ -1,6 +1,9 @@
 //! Correspondence harness: executes request lines against the real `urandom` crate built from
 //! /repo's working tree.  `uharness run` reads one request per line on stdin and prints one
 //! result line per request (`panic` if the call panicked, `bad-request` if unparsable).
+mod distr;
+mod enumr;
+mod mockutil;
 mod util;
 mod word;
 
@@ -11,6 +14,19 @@ use util::*;
 fn dispatch(req: &Req) -> R<String> {
 	match req.kind {
 		"word" => word::word(req),
+		"uint" => distr::uint(req),
+		"index" => distr::index(req),
+		"dice" => distr::dice(req),
+		"shuf" => distr::shuf(req),
+		"pshuf" => distr::pshuf(req),
+		"choose" => distr::choose(req),
+		"single" => distr::single(req),
+		"multi" => distr::multi(req),
+		"alnum" => distr::alnum(req),
+		"f01" => distr::f01(req),
+		"bern" => distr::bern(req),
+		"std" => distr::std(req),
+		"enum" => enumr::enumerate(req),
 		_ => Err(Bad),
 	}
 }
